@@ -40,12 +40,13 @@ impl Read for ScriptReader {
 /// an ARBITRARY reachable reader state: pos <= cap <= capacity, source cursor at abs_pos + cap,
 /// empty_last_read only if the source is at its end.
 fn any_state<const LM: usize, const EXTRA: usize>() -> (LowMarkBufReader<ScriptReader>, usize, usize) {
-    // low mark and capacity are CONCRETE per instance (a buffer of symbolic size costs CBMC > 17 GB: probed);
-    // instances: (1, 0) minimal, (4, 3), (8, 8)
+    // low mark and capacity are CONCRETE per instance (a buffer of symbolic size costs CBMC > 17 GB: probed).
+    // Instances cover low mark < cache line, == cache line and > cache line (the production setting: low mark 65555 >> 4096):
+    // (1, 0), (4, 3), (8, 0), (20, 4) with the cache line scaled to 8
     let low_mark: usize = LM;
     let capacity = low_mark + CACHE_LINE_SIZE + EXTRA;
     let src_len: usize = kani::any();
-    kani::assume(src_len <= 3 * CACHE_LINE_SIZE + 8);
+    kani::assume(src_len <= capacity + 2 * CACHE_LINE_SIZE);
     let (pos, cap, abs_pos): (usize, usize, usize) = (kani::any(), kani::any(), kani::any());
     kani::assume(pos <= cap && cap <= capacity);
     kani::assume(abs_pos <= src_len && abs_pos + cap <= src_len);
@@ -205,10 +206,11 @@ macro_rules! lmbr_h {
 }
 lmbr_h!(c04_b1_fill_lm4_x3, c04_b1_fill_buf_step, 4, 3);
 lmbr_h!(c04_b1_fill_lm1_x0, c04_b1_fill_buf_step, 1, 0);
-lmbr_h!(c04_b1_fill_lm8_x8, c04_b1_fill_buf_step, 8, 8);
+lmbr_h!(c04_b1_fill_lm8_x0, c04_b1_fill_buf_step, 8, 0);
+lmbr_h!(c04_b1_fill_lm20_x4, c04_b1_fill_buf_step, 20, 4);
 lmbr_h!(c04_b1_consume_lm4_x3, c04_b1_consume_step, 4, 3);
-lmbr_h!(c04_b1_consume_lm1_x0, c04_b1_consume_step, 1, 0);
+lmbr_h!(c04_b1_consume_lm20_x4, c04_b1_consume_step, 20, 4);
 lmbr_h!(c04_b1_read_lm4_x3, c04_b1_read_step, 4, 3);
-lmbr_h!(c04_b1_read_lm8_x8, c04_b1_read_step, 8, 8);
+lmbr_h!(c04_b1_read_lm20_x4, c04_b1_read_step, 20, 4);
 lmbr_h!(c04_b1_seek_lm4_x3, c04_b1_seek_step, 4, 3);
-lmbr_h!(c04_b1_seek_lm1_x0, c04_b1_seek_step, 1, 0);
+lmbr_h!(c04_b1_seek_lm20_x4, c04_b1_seek_step, 20, 4);
